@@ -1171,6 +1171,78 @@ def re_match(pat, text):
     return re.match(pat, text) is not None
 
 
+def handler_constants(src, msrc, xsrc):
+    """Constants and lists the hand-written handler model (coq/ikesa/Hdl.v) writes literally; coq/ikesa/HdlFacts.v
+    proves that the two agree, so a change of any of them in the source breaks a proof obligation."""
+    import ast
+    out = {}
+    notif = dict(msrc.enum('PayloadNOTIFY.Type'))
+    out['notify'] = notif
+    out['ttype'] = dict(msrc.enum('Transform.Type'))
+    out['proto'] = dict(msrc.enum('Proposal.Protocol'))
+    names = {'XFRM_MODE_TRANSPORT': xsrc.const('XFRM_MODE_TRANSPORT'), 'XFRM_MODE_TUNNEL': xsrc.const('XFRM_MODE_TUNNEL')}
+    out['mode'] = {k: xsrc.lit(v, names) for k, v in
+                   [(n.targets[0].id, n.value) for n in xsrc.cls('Mode').body if isinstance(n, ast.Assign)]}
+
+    def notify_list(node, what):
+        if not isinstance(node, (ast.List, ast.Tuple)):
+            src.fail(node, f'{what}: a literal list of PayloadNOTIFY.Type members was expected')
+        vals = []
+        for e in node.elts:
+            d = pyast.dotted_name(e)
+            if d is None or not d.startswith('PayloadNOTIFY.Type.') or d.split('.')[-1] not in notif:
+                src.fail(e, f'{what}: {ast.unparse(e)} is not a PayloadNOTIFY.Type member')
+            vals.append(notif[d.split('.')[-1]])
+        return vals
+
+    def abort_ignore(fname):
+        fn = src.func('IkeSa.' + fname)
+        calls = [n for n in ast.walk(fn) if isinstance(n, ast.Call) and pyast.dotted_name(n.func) == 'self.abort_on_error_notifies']
+        if len(calls) != 1:
+            src.fail(fn, f'{fname}: exactly one call of abort_on_error_notifies was expected')
+        kw = {k.arg: k.value for k in calls[0].keywords}
+        ign = kw.get('ignore')
+        if ign is None and len(calls[0].args) >= 3:
+            ign = calls[0].args[2]
+        return notify_list(ign, fname + ' ignore=') if ign is not None else []
+    out['ccsa_ignore'] = abort_ignore('process_create_child_sa_response')
+    out['auth_ignore'] = abort_ignore('process_ike_auth_response')
+    out['info_ignore'] = abort_ignore('process_informational_response')
+    out['init_ignore'] = abort_ignore('process_ike_sa_init_response')
+    fn = src.func('IkeSa._process_create_child_sa_negotiation_res')
+    loops = [n for n in fn.body if isinstance(n, ast.For) and isinstance(n.target, ast.Name) and n.target.id == 'error']
+    if len(loops) != 1:
+        src.fail(fn, 'the loop over the refusal notifications was not found')
+    out['child_refusals'] = notify_list(loops[0].iter, 'refusal notifications')
+    # is_error(): notification_type < 16384
+    ie = msrc.func('PayloadNOTIFY.is_error')
+    t = ast.unparse(ie.body[-1])
+    if t != 'return self.notification_type < 16384':
+        msrc.fail(ie, 'PayloadNOTIFY.is_error changed')
+    # vendor id
+    fn = src.func('IkeSa.process_ike_sa_init_request')
+    v = [n for n in ast.walk(fn) if isinstance(n, ast.Call) and pyast.dotted_name(n.func) == 'PayloadVENDOR']
+    if len(v) != 1 or not isinstance(v[0].args[0], ast.Constant) or not isinstance(v[0].args[0].value, bytes):
+        src.fail(fn, 'vendor id payload not found')
+    out['vendor'] = list(v[0].args[0].value)
+    # from_exception table: exception class -> notification
+    fe = msrc.func('PayloadNOTIFY.from_exception')
+    tbl = next((n for n in fe.body if isinstance(n, ast.Assign) and pyast.dotted_name(n.targets[0]) == 'exception_2_notify'), None)
+    if tbl is None or not isinstance(tbl.value, ast.Dict):
+        msrc.fail(fe, 'exception_2_notify table not found')
+    m = {}
+    for k, vv in zip(tbl.value.keys, tbl.value.values):
+        d = pyast.dotted_name(vv)
+        if d is None or d.split('.')[-1] not in notif:
+            msrc.fail(vv, 'exception_2_notify: not a notification type')
+        m[pyast.dotted_name(k)] = notif[d.split('.')[-1]]
+    out['exc_notify'] = m
+    dflt = [n for n in ast.walk(fe) if isinstance(n, ast.Call) and ast.unparse(n.func) == 'exception_2_notify.get']
+    if len(dflt) != 1 or pyast.dotted_name(dflt[0].args[1]) != 'PayloadNOTIFY.Type.INVALID_SYNTAX':
+        msrc.fail(fe, 'from_exception: default notification changed')
+    return out
+
+
 def translate(ctx=None):
     src = pyast.Src(os.path.join(core.REPO, 'ikesa.py'))
     msrc = pyast.Src(os.path.join(core.REPO, 'message.py'))
@@ -1190,6 +1262,7 @@ def translate(ctx=None):
     sadsites = sad_facts(src, csrc, pyast.Src(os.path.join(core.REPO, 'xfrm.py')))
     adm = admission_facts(src)
     ctl = controller_facts(csrc, src)
+    hc = handler_constants(src, msrc, pyast.Src(os.path.join(core.REPO, 'xfrm.py')))
     exd = dict(exch)
     req_ex = [exd[k.split('.')[-1]] for k, _ in win['req_handlers']]
     res_ex = [exd[k.split('.')[-1]] for k, _ in win['res_handlers']]
@@ -1245,6 +1318,25 @@ def translate(ctx=None):
     L.append('\n(* cookie check of _process_ike_sa_negotiation_request (it precedes every negotiation step) *)')
     L.append(f'Definition cookie_reject (ncookies : Z) (first_equal : bool) : bool := {cook["cookie_reject"]}.')
     L.append(f'Definition N_COOKIE : Z := {cook["COOKIE"]}.')
+    L.append('\n(* constants and lists the handler model Hdl.v writes literally (HdlFacts.v proves they agree) *)')
+    for n, v in sorted(hc['notify'].items(), key=lambda x: x[1]):
+        L.append(f'Definition G_N_{n} : Z := {v}.')
+    for n, v in hc['ttype'].items():
+        L.append(f'Definition G_T_{n} : Z := {v}.')
+    for n, v in hc['proto'].items():
+        L.append(f'Definition G_PROTO_{n} : Z := {v}.')
+    for n, v in hc['mode'].items():
+        L.append(f'Definition G_MODE_{n} : Z := {v}.')
+    for k in ('ccsa_ignore', 'auth_ignore', 'info_ignore', 'init_ignore', 'child_refusals'):
+        L.append(f'Definition G_{k} : list Z := [' + '; '.join(str(x) for x in hc[k]) + '].')
+    L.append('Definition G_VENDOR_ID : list N := [' + '; '.join(str(b) for b in hc['vendor']) + ']%N.')
+    for k in ('NoProposalChosen', 'UnsupportedCriticalPayload', 'InvalidSyntax', 'AuthenticationFailed', 'TsUnacceptable',
+              'InvalidKePayload', 'ChildSaNotFound', 'TemporaryFailure', 'CookieRequired'):
+        if k not in hc['exc_notify']:
+            raise TranslateError(f'message.py: from_exception no longer maps {k}')
+        L.append(f'Definition G_EXC_{k} : Z := {hc["exc_notify"][k]}.')
+    if len(hc['exc_notify']) != 9:
+        raise TranslateError('message.py: from_exception maps other exception classes than the nine modelled')
     L.append('\n(* AUTH (RFC 7296 2.15): order of the signed octets, key pad, method numbers *)')
     L.append('Inductive octet_part := O_MSG | O_NONCE | O_PRF_ID.')
     L.append('Definition octets_order : list octet_part := [' + '; '.join(auth['octets_order']) + '].')
